@@ -111,26 +111,33 @@ def check_histories(pid, hists, fields, acceptor=None, known=(), max_report=3, w
     res, stats, impl_out, model_out = run_pair(hists, runner=runner, workers=workers)
     violations = []
     known_hits = []
-    n_div = 0
+    divergent = []
     for i, h in enumerate(hists):
         if res[i] is None:
             continue
         dv = diverge(impl_out[i], model_out[i], fields)
         if dv is None:
             continue
-        n_div += 1
+        v0 = acceptor(h, impl_out[i]) if acceptor else None
+        divergent.append((0 if v0 else 1, i, dv, v0))
+    n_div = len(divergent)
+    divergent.sort(key=lambda t: (t[0], len(hists[t[1]]['ops'])))
+    reported_rejecting = set()
+    for rank, i, dv, v0 in divergent:
         if len(violations) >= max_report:
-            continue
+            break
+        h = hists[i]
 
-        def still_fails(h2):
+        def still_fails(h2, need_reject=bool(v0)):
             try:
                 _, _, io2, mo2 = run_pair([h2], runner=runner, workers=1)
+                if need_reject:
+                    return acceptor(h2, io2[0]) is not None
                 return diverge(io2[0], mo2[0], fields) is not None
             except Exception:
                 return False
         hs = shrink(h, still_fails)
         _, _, io, mo = run_pair([hs], runner=runner, workers=1)
-        io = io
         dv = diverge(io[0], mo[0], fields) or dv
         verdict = acceptor(hs, io[0]) if acceptor else None
         payload = {
@@ -145,6 +152,7 @@ def check_histories(pid, hists, fields, acceptor=None, known=(), max_report=3, w
             known_hits.append(k['what'])
             continue
         if verdict:
+            reported_rejecting.add(i)
             violations.append({'replay': payload, 'found_input': True,
                                'what': 'property violated on the implementation: ' + verdict})
         else:
@@ -163,7 +171,9 @@ def check_histories(pid, hists, fields, acceptor=None, known=(), max_report=3, w
     # model but violates the property would mean the model itself violates it
     acc_fail = 0
     if acceptor:
-        for h, io in zip(hists, impl_out):
+        for i, (h, io) in enumerate(zip(hists, impl_out)):
+            if i in reported_rejecting:
+                continue
             v = acceptor(h, io)
             if v:
                 k = match_known(known, h, None, v)
